@@ -8,7 +8,7 @@ EXPLANATION = ("Static rules over quinn-proto/quinn MIR: (a) ConnectionIndex::re
                "only) -> 4-tuple maps (empty DCID only) -> reset tokens; (e) CID life-cycle agreement: every issued CID is recorded in loc_cids under the sequence number "
                "announced to the peer (add_connection: 0 and 1; send_new_identifiers: cids_issued before increment) and in the routing index; retirement removes from "
                "both with the removed value; the connection emits RetireConnectionId only past on_cid_retirement's Ok edge; (f) async endpoint: senders map insert/remove "
-               "sites and event routing by the handle returned from proto; (g) tables whose insert overwrites (4-tuple / remote maps used with zero-length CIDs) are purged in ConnectionIndex::remove only under `table.get(key) == Some(ch)`. Stale mappings across arbitrary histories (relational invariant) are NOT decided.")
+               "sites and event routing by the handle returned from proto; (g) tables whose insert overwrites (4-tuple / remote maps used with zero-length CIDs) are purged in ConnectionIndex::remove only under `table.get(key) == Some(ch)`; (h) reset-token routes are entered under exactly the (remote, token) pair written to ConnectionMeta.reset_token and deleted under both halves of one pair taken from that record. Stale mappings across arbitrary histories (relational invariant) are NOT decided.")
 RULE = "rule instances = (rule, site) pairs over MIR stores / call sites / table fields; non-trivial = bound to a real site"
 CI = 'endpoint::ConnectionIndex'
 
@@ -201,6 +201,95 @@ def rule_g(ctx):
     ctx.floor('g', 'overwritable_tables', n, 2)
 
 
+_OLD_VALUE_CALLS = ('Option::replace', 'Option::take', 'mem::replace', 'mem::take')
+
+
+def _recorded_pair_source(x):
+    """x (the pair whose halves are used) IS the payload of the connection record's `reset_token`: after peeling the
+    `Some` downcast and its payload projection, either a read of a field `reset_token` or the old value handed back
+    by replace/take applied to exactly that field.  Returns a rendering of the source or None."""
+    while x[0] == 'variant' and x[2] == 'Some' or x[0] == 'field' and x[2] == '0' and x[1][0] == 'variant':
+        x = x[1]
+    if x[0] == 'field' and x[2] == 'reset_token':
+        return D.render(x)
+    if x[0] == 'call' and x[3] and any(x[1] == n or path_matches(x[2], n) for n in _OLD_VALUE_CALLS):
+        a0 = x[3][0]
+        if a0[0] == 'field' and a0[2] == 'reset_token':
+            return D.render(x)[:60]
+    return None
+
+
+def _halves(d, idx):
+    """bases X such that the value is X.<idx> on every reaching definition; None when some alternative is not a
+    projection `.idx`"""
+    out = set()
+    for x in flat(d):
+        if x[0] == 'field' and x[2] == idx:
+            out.add(x[1])
+        else:
+            return None
+    return out
+
+
+def _unwrap_some(d):
+    if d[0] == 'agg' and d[1] == 'adt' and d[2].endswith('::Some') and len(d[3]) == 1:
+        return d[3][0]
+    return d
+
+
+def _reset_token_pairs(ctx, he, ins):
+    """the reset-token table and the connection records agree on the (remote, token) pair of each connection:
+    * a route is deleted under BOTH halves of one pair taken from the record (`ConnectionMeta.reset_token`, read or
+      handed back by replace/take) — never under a remote / token from elsewhere (event payload, current path): an
+      entry registered under an earlier remote address would otherwise survive replacement and draining and keep
+      routing stateless-reset-looking datagrams to a dead or re-used handle;
+    * a route is entered under exactly the pair that is written into the record at the same time (so that the later
+      removal, which knows only the record, finds it)."""
+    F = ctx.facts
+    rms = [c for c in F.callers_of('ResetTokenTable::remove', crate='quinn_proto') if not is_noise(c)]
+    ctx.floor('b', 'reset_token_route_removal_sites', len(rms), 2)
+    for c in rms:
+        body = F.root_of(c.body)
+        r, t = arg_desc(F, c, 1), arg_desc(F, c, 2)
+        rb, tb = _halves(r, '0'), _halves(t, '1')
+        src = None
+        if rb and rb == tb:
+            srcs = [_recorded_pair_source(x) for x in rb]
+            src = None if None in srcs else ' | '.join(sorted(srcs))
+        ctx.check(src is not None, 'b', 'reset_token_removed_under_its_recorded_pair', body, c.where(),
+                  'remove(p.0, p.1) with p = %s' % src,
+                  'the reset-token route is deleted under (%s, %s), which is not the (remote, token) pair taken as a whole from the connection record `reset_token`: '
+                  'after an address change the entry registered under the old remote is never removed and outlives the connection' % (D.render(r)[:90], D.render(t)[:90]))
+    # pairs written into the record in handle_event
+    pairs = set()
+    nw = 0
+    for w in field_writes(F, 'endpoint::ConnectionMeta', 'reset_token', crate='quinn_proto'):
+        if F.root_of(w.body).id != he.id:
+            continue
+        nw += 1
+        cands = []
+        if w.kind == 'mutborrow':
+            # the consumer of the borrow (found directly, or — when the borrow is re-borrowed on its way — as a call of
+            # the same body whose receiver IS the record field): its remaining arguments are what it may store
+            cons = [w.call] if w.call is not None else [c for c in w.body.calls() if not is_noise(c) and c.args and (lambda a: a[0] == 'field' and a[2] == 'reset_token')(arg_desc(F, c, 0))]
+            for c in cons:
+                cands += [arg_desc(F, c, i) for i in range(1, len(c.args))]
+            cands += [describer(F, x.body).rvalue(x.rv, x.bb, x.idx, 0) for x in borrow_stores(F, w) if x.rv and x.rv[0] != 'sd']
+        elif w.kind == 'assign' and w.rv and w.rv[0] != 'sd':
+            cands.append(describer(F, w.body).rvalue(w.rv, w.bb, w.idx, 0))
+        for v in cands:
+            for x in flat(v):
+                x = _unwrap_some(x)
+                if x[0] == 'agg' and x[1] == 'tuple' and len(x[3]) == 2:
+                    pairs.add((x[3][0], x[3][1]))
+    ctx.floor('b', 'reset_token_record_write_sites', nw, 1)
+    for c in ins:
+        got = (arg_desc(F, c, 1), arg_desc(F, c, 2))
+        ctx.check(got in pairs, 'b', 'reset_token_route_is_the_recorded_pair', he, c.where(), 'insert(r, t, ch) with (r, t) the pair stored in ConnectionMeta.reset_token (%d stored pair(s))' % len(pairs),
+                  'the reset-token route is entered under (%s, %s) but the connection record stores %s: removal by the recorded pair will not find the route' % (
+                      D.render(got[0])[:80], D.render(got[1])[:80], sorted('(%s, %s)' % (D.render(a)[:60], D.render(b)[:60]) for a, b in pairs) or 'no (remote, token) pair'))
+
+
 def rule_b(ctx):
     who_may_write(ctx, 'b', 'connection_ids_writers', CI, 'connection_ids', ['Endpoint::new_cid', 'ConnectionIndex::insert_conn', 'ConnectionIndex::retire', 'ConnectionIndex::remove'], floor=4)
     who_may_write(ctx, 'b', 'connection_ids_initial_writers', CI, 'connection_ids_initial', ['ConnectionIndex::insert_initial_incoming', 'ConnectionIndex::insert_initial', 'ConnectionIndex::remove_initial'], floor=3)
@@ -215,6 +304,7 @@ def rule_b(ctx):
     ctx.check(ok, 'b', 'reset_token_replaced_not_accumulated', he, he.where(), 'old (remote, token) removed when a new one is registered', 'registering a new reset token no longer removes the connections previous one')
     for c in ins:
         ctx.check(_is_param(arg_desc(F, c, 3), 'ch'), 'b', 'reset_token_routes_to_its_connection', he, c.where(), 'insert(remote, token, ch)', 'reset token registered for another connection handle')
+    _reset_token_pairs(ctx, he, ins)
     # ResetTokenTable::remove(remote, token) forgets ONE token: the per-remote map as a whole (it may hold tokens of
     # other connections behind the same address) is dropped from the outer table only over the `inner map is empty`
     # edge of a dominating test
